@@ -20,7 +20,7 @@ ASSUMPTIONS = [
     "independent periodic table (symbol->Z, name->Z for Z<=118) in mc/refs/periodic.py is correct",
     "species are those reachable as module attributes of cherab.core.atomic.elements",
 ]
-REQUIRED_CLASSES = ["lookup:element", "lookup:isotope", "pairs", "lines", "unknown-key-rejected", "cross-registry-sequences", "first-call-in-fresh-interpreter"]
+REQUIRED_CLASSES = ["lookup:element", "lookup:isotope", "pairs", "lookup-after-construction", "lines", "unknown-key-rejected", "cross-registry-sequences", "first-call-in-fresh-interpreter"]
 BUDGET_S = {"quick": 120, "thorough": 300}
 CHUNK = 4
 
@@ -240,6 +240,29 @@ def run_case(case):
             cp = Element(a.name, a.symbol, a.atomic_number, a.atomic_weight)
         else:
             cp = Isotope(a.name, a.symbol, a.element, a.mass_number, a.atomic_weight)
+        # constructing a species is not a registry operation: every identifier of the exported species still resolves to the exported
+        # object (identity), also after a second copy with another weight (the class docstrings construct such objects)
+        if type(a) is Element:
+            cp2 = Element(a.name, a.symbol, a.atomic_number, a.atomic_weight + 0.25)
+            forms = [("name", lambda: lookup_element(a.name)), ("symbol", lambda: lookup_element(a.symbol)), ("Z", lambda: lookup_element(a.atomic_number)),
+                     ("str-Z", lambda: lookup_element(str(a.atomic_number))), ("upper-name", lambda: lookup_element(a.name.upper()))]
+        else:
+            cp2 = Isotope(a.name, a.symbol, a.element, a.mass_number, a.atomic_weight + 0.25)
+            forms = [("name", lambda: lookup_isotope(a.name)), ("symbol", lambda: lookup_isotope(a.symbol)),
+                     ("element+number", lambda: lookup_isotope(a.element, number=a.mass_number)),
+                     ("element-symbol+number", lambda: lookup_isotope(a.element.symbol, number=a.mass_number)),
+                     ("element-symbol+mass", lambda: lookup_isotope("%s%d" % (a.element.symbol, a.mass_number)))]
+        for fname, fn in forms:
+            n += 1
+            try:
+                got = fn()
+            except Exception as e:  # noqa
+                got = "EXC:" + type(e).__name__
+            if got is not a:
+                V(viol, "registry:lookup-after-user-construction:not-the-exported-object", "%s looked up by %s after Element/Isotope copies of it were constructed" % (a.name, fname),
+                  "the exported object (id %d)" % id(a), "%r (is first copy: %s, is second copy: %s)" % (got, got is cp, got is cp2))
+                break
+        classes.append("lookup-after-construction")
         if not (cp == a) or (cp != a) or hash(cp) != hash(a):
             V(viol, "hash:copy-not-equal-or-hash-differs", a.name, "copy == original with equal hash", [cp == a, cp != a, hash(cp) == hash(a)])
         d = {b: nb for nb, b in allsp}
